@@ -450,7 +450,7 @@ func propC17(w *World, r *Report) {
 								continue // the buffer itself is allocated once; its size says nothing about the input
 							}
 							if sl, isSl := st.Val.(*ssa.Slice); isSl {
-								if _, isArr := sl.X.(*ssa.Alloc); isArr && sl.Low == nil && sl.High == nil {
+								if _, isArr := sl.X.(*ssa.Alloc); isArr && sl.Low == nil {
 									continue // make([]T, N) with constant N
 								}
 							}
